@@ -1,8 +1,8 @@
 """C37 -- llamactl never activates a profile the user did not pick in that environment.
 
 1. TLC checks Llamactl.tla exhaustively (full reachable state graph = operation sequences of every
-   length over default + 2 (thorough: + 3) environments and 2 profile names): the intended design
-   (strict C37), the code as it is (C37 outside the known failure shape), the code as it is restricted
+   length over default + 2 environments (thorough: default + 3 for the code as it is) and 2 profile names):
+   the intended design (strict C37), the code as it is (C37 outside the known failure shape), the code as it is restricted
    to the operations the CLI composes (strict C37), and -- as a witness -- that strict C37 is refuted
    for the code as it is.
 2. The real ConfigManager / EnvService / AuthService run on a private LLAMACTL_CONFIG_DIR:
@@ -211,9 +211,8 @@ def run(chk):
         jobs = [("graph", "graph", True, ()), ("code", "code", False, ()), ("design2", "design2", False, ()),
                 ("code_strict", "code_strict", False, None)]
     else:
-        jobs = [("graph", "graph", True, ()), ("code4", "code4", False, ()), ("design4", "design4", False, ()),
-                ("design", "design", False, ()), ("cli", "cli", False, ("CmCreate", "CmDelete")),
-                ("code_strict", "code_strict", False, None)]
+        jobs = [("graph", "graph", True, ()), ("code4", "code4", False, ()), ("design", "design", False, ()),
+                ("cli", "cli", False, ("CmCreate", "CmDelete")), ("code_strict", "code_strict", False, None)]
 
     def _tlc(job):
         name, cfg, dump, ignore = job
@@ -243,7 +242,7 @@ def run(chk):
     #     system x every operation), then the shallowest states of the full alphabet
     sub_envs, sub_names = (ENVS[:2], NAMES[:1]) if chk.quick else (ENVS, NAMES[:1])
     impl, n_states, exhausted = explore_impl(sysm, init_snap, init_obs, alphabet(sub_envs, sub_names), max_states=10 ** 9, max_depth=10 ** 9)
-    wide, n_states2, _ = explore_impl(sysm, init_snap, init_obs, alphabet(ENVS, NAMES), max_states=chk.pick(40, 300), max_depth=10 ** 9)
+    wide, n_states2, _ = explore_impl(sysm, init_snap, init_obs, alphabet(ENVS, NAMES), max_states=chk.pick(40, 200), max_depth=10 ** 9)
     impl += wide
     n_states += n_states2
     traces += impl
